@@ -209,7 +209,34 @@ def m_option_or(it, st, args, info):
     return [(s, SOME(variant_payload(x, 'Some')) if v == 'Some' else args[1]) for s, v in it.fork_variants(st, x, ['Some', 'None'], info['site'])]
 
 def m_as_ref(it, st, args, info):
-    return it.deref(st, args[0])
+    """Option::as_ref / as_mut (also Result::as_ref): the payload is a reference INTO the original place, so writes through it are seen"""
+    a = args[0]
+    if a[0] != 'ref': return it.deref(st, a)
+    x = strip_named(it.read_addr(st, a[1]))
+    is_res = 'Result' in info['name']
+    okv, badv = ('Ok', 'Err') if is_res else ('Some', 'None')
+    outs = []
+    for s, v in it.fork_variants(st, x, [okv, badv], info['site']):
+        uid, local, path = a[1]
+        inner = ('ref', (uid, local, path + (('v', v, '0'),)))
+        if is_res: outs.append((s, OK(inner) if v == 'Ok' else ERR(inner)))
+        else: outs.append((s, SOME(inner) if v == 'Some' else NONE))
+    return outs
+
+def m_mem_take(it, st, args, info):
+    a = args[0]; cur = strip_named(it.deref(st, a))
+    if a[0] == 'ref': it.write_addr(st, a[1], ('call', 'std::default::Default::default', tuple(info['targs']), ()))
+    return cur
+def m_mem_replace(it, st, args, info):
+    a = args[0]; cur = strip_named(it.deref(st, a))
+    if a[0] == 'ref': it.write_addr(st, a[1], args[1])
+    return cur
+def m_mem_swap(it, st, args, info):
+    a, b = args[0], args[1]
+    va, vb = it.deref(st, a), it.deref(st, b)
+    if a[0] == 'ref': it.write_addr(st, a[1], vb)
+    if b[0] == 'ref': it.write_addr(st, b[1], va)
+    return UNIT
 
 def mk_unwrap(okv, badv):
     def m(it, st, args, info):
@@ -547,6 +574,7 @@ EXACT = {
     'std::result::Result::<T, E>::map_or_else': mk_map_or('Ok', 'Err', True),
     'std::option::Option::<T>::is_some_and': mk_is_and('Some', 'None'),
     'std::result::Result::<T, E>::is_ok_and': mk_is_and('Ok', 'Err'),
+    'std::mem::take': m_mem_take, 'std::mem::replace': m_mem_replace, 'std::mem::swap': m_mem_swap,
     'std::option::Option::<T>::filter': m_option_filter,
     'std::option::Option::<T>::take': m_option_take,
     'std::option::Option::<T>::replace': m_option_replace,
